@@ -63,6 +63,11 @@ pub struct ItemReq {
     /// R35: type ascriptions for the k-th search accumulator (`let mut __vx_res: T`) of a `max_by_key`
     #[serde(default)]
     pub search_types: Vec<String>,
+    /// names the contract text was written against: (kind, identifier) of every parameter, `let` / `if let` / `for` binding of the
+    /// function in source order (recorded on the pinned tree). If the current function has the same sequence of kinds, identifiers
+    /// that differ are treated as renamed: anchors are translated and the map is returned so that clause text can follow
+    #[serde(default)]
+    pub expect_names: Vec<(String, String, String)>,
     /// cargo features that are off in the shipped configuration: statements gated on them are dropped (R2)
     #[serde(default)]
     pub off_features: Vec<String>,
@@ -89,6 +94,10 @@ pub struct ItemOut {
     pub auto_loop_ensures: BTreeMap<usize, Vec<String>>,
     pub rules_fired: BTreeMap<String, usize>,
     pub anchors_placed: Vec<String>,
+    /// (kind, identifier) of every parameter and binding, in source order (after the rewrite rules)
+    pub names: Vec<(String, String, String)>,
+    /// expected identifier -> current identifier, for renamed bindings (only when the shapes agree)
+    pub rename: BTreeMap<String, String>,
     /// struct fields (name, type) for generated view functions
     pub fields: Vec<(String, String)>,
     /// enum variants
@@ -190,6 +199,8 @@ fn run_item_inner(repo: &str, req: &ItemReq, out: &mut ItemOut) -> Result<(), St
                 loops: 0,
                 auto_loop_ensures: BTreeMap::new(),
                 anchors_placed: vec![],
+                names: vec![],
+                rename: BTreeMap::new(),
             };
             rules::apply(repo, req, &mut f)?;
             let (v, s, r) = print_sig(&f.vis, &f.sig);
@@ -201,6 +212,8 @@ fn run_item_inner(repo: &str, req: &ItemReq, out: &mut ItemOut) -> Result<(), St
             out.auto_loop_ensures = f.auto_loop_ensures;
             out.rules_fired = f.fired;
             out.anchors_placed = f.anchors_placed;
+            out.names = f.names;
+            out.rename = f.rename;
         }
         select::What::Item(mut item) => {
             let mut fired = BTreeMap::new();
